@@ -88,3 +88,13 @@ claim('C19', 'other',
       'connectivity-derived caches. Tie-breaking by iteration over integer sets with different insertion histories is NOT decided.',
       'trusts: NONDET_ALLOWED list in sa/r_canon.py',
       'DESIGN.md 4/C19')
+claim('C04', 'other',
+      'literal valence-table compilation (data transform re-implemented), definite-assignment walk over calc_implicit, '
+      'sibling comparison of the three rule-evaluation copies, decision-table extraction of the aromatic shortcut, attribute read sets of the totals',
+      'decides: all 118 valence tables compile and are well shaped; every exit of calc_implicit assigns the count (no stale '
+      'value); calc_implicit / check_implicit / implicify_hydrogens accumulate the same environment (coordinate bonds '
+      'excluded) and test the same predicate; the aromatic-carbon shortcut equals its chemical table; formula/mass/charge/'
+      'radical totals read hydrogens of all atoms; check_valence reports exactly None counts. That the tabulated valences '
+      'are chemically right is NOT decided.',
+      'trusts: the aromatic carbon table (2 aromatic bonds use 3 valence units, 3 use 4)',
+      'DESIGN.md 4/C04')
